@@ -128,6 +128,80 @@ def runSeq {σ μ : Type} (rk : RadioKindOps σ μ) (kind : Kind) (needs : Needs
     | _ => pure ()
   return (out, bad)
 
+/-! ### the LoRaWAN adapter -/
+
+def parseAdp? {μ : Type} (m : μ) (tok : String) : Option (AdapterCall μ) :=
+  match tok.splitOn ":" with
+  | ["atx"] => some (.tx m txPkt 14 [1, 2, 3])
+  | ["asetup", k] => match k with
+    | "s" => some (.setupRx (.single 13) m rxPkt)
+    | "c" => some (.setupRx .continuous m rxPkt)
+    | _ => none
+  | ["arxs"] => some (.rxSingle 255)
+  | ["arxc"] => some (.rxContinuous 255)
+  | ["alp"] => some .lowPower
+  | _ => none
+
+def showAdp : Out (AdapterResult × AdapterState) → String
+  | .ok (.unit, _) => "ok"
+  | .ok (.rx n bytes, _) => s!"ok:rx({n},{if bytes.isEmpty then "-" else hexOfBytes bytes})"
+  | .ok (.rxTimeout, _) => "ok:timeout"
+  | .ok (.noRxParams, _) => "err:NoRxParams"
+  | .err e => "err:" ++ showErr e
+  | .panic _ => "PANIC"
+  | .dropped => "DROPPED"
+
+def runAdp {σ μ : Type} (rk : RadioKindOps σ μ) (m : μ) (irqDefault : Nat) (calls : List String)
+    (s0 : DriverState σ × World) : Option String := do
+  let mut s := s0
+  let mut a : AdapterState := {}
+  let mut out : List String := []
+  for tok in calls do
+    match tok.splitOn "@" with
+    | [c, irq, f, p] =>
+      let call ← parseAdp? m c
+      let irq ← natList? irq
+      let f ← optNat? f
+      let p ← optNat? p
+      let (o, s') := adapterStep rk a call { irq := irq, irqDefault := irqDefault, fault := f, pendAt := p } s
+      out := out ++ [s!"{showAdp o} {fnvStr (showLog s'.2.log)}"]
+      s := s'
+      match o with
+      | .ok (_, a') => a := a'
+      | .panic _ => break
+      | _ => pure ()
+    | _ => none
+  some (String.intercalate " ; " out)
+
+def handleAdp (rest : String) : String :=
+  match splitOn' rest ";" with
+  | chip :: calls =>
+    match parseChip chip with
+    | none => "bad-op"
+    | some c =>
+      let chip0 := mkChip c 1 (if is126 c.variant then [(0x29f, 0)] else [])
+      if is126 c.variant then
+        match Driver.C13.S126.config c with
+        | none => "bad-op"
+        | some cfg =>
+          let m : Sx126x.ModulationParams := { sf := ._7, bw := ._125KHz, cr := ._4_5, ldro := 0, freq := FREQ }
+          let rk := sx126xOps cfg
+          let s0 : DriverState Unit × World := ({ rk := (), syncWord := 0x3444 }, { chip := chip0 })
+          let (o0, s1) := apiStep rk .init {} s0
+          match o0, runAdp rk m 0x0283 calls s1 with
+          | .ok _, some r => s!"{r}|-"
+          | _, _ => "bad-op"
+      else
+        let cfg := Driver.C13.S127.config c
+        let m : Sx127x.ModulationParams := { sf := ._7, bw := ._125KHz, cr := ._4_5, ldro := 0, freq := FREQ }
+        let rk := sx127xOps cfg
+        let s0 : DriverState Sx127x.Data × World := ({ rk := {}, syncWord := 0x3444 }, { chip := chip0 })
+        let (o0, s1) := apiStep rk .init {} s0
+        match o0, runAdp rk m 0x4c calls s1 with
+        | .ok _, some r => s!"{r}|-"
+        | _, _ => "bad-op"
+  | _ => "bad-op"
+
 def irqDefaultOf (kind : Kind) : Nat := if kind = .sx126x then 0x0283 else 0x4c
 
 def handleSeq (digest : Bool) (rest : String) (inv : Bool := false) : String :=
@@ -181,6 +255,7 @@ def handle (ws : List String) : String :=
   | "seq" :: rest => handleSeq false (String.intercalate " " rest)
   | "seqh" :: rest => handleSeq true (String.intercalate " " rest)
   | "inv" :: rest => handleSeq true (String.intercalate " " rest) true
+  | "adp" :: rest => handleAdp (String.intercalate " " rest)
   | _ => "bad-op"
 
 end Driver.C14
